@@ -6,13 +6,14 @@
 -/
 import EG.Lemmas.Target
 namespace EG
+open EG.Tgt
 
 /-! ### `apply`: last write wins -/
 
 theorem PMap.apply_nil (m : PMap) : m.apply [] = m := rfl
 
 theorem PMap.set_at (m : PMap) (w : Pt × Color) (p : Pt) :
-    m.set w p = if p = w.1 then some w.2 else m p := rfl
+    Tgt.PMap.set m w p = if p = w.1 then some w.2 else m p := rfl
 
 theorem PMap.apply_append (m : PMap) (ws1 ws2 : Writes) :
     m.apply (ws1 ++ ws2) = (m.apply ws1).apply ws2 := by
